@@ -189,10 +189,40 @@ class Overlay:
         self.lost = []          # non fatal lost anchors
         self.e2 = []
         seq = 0
+        self._contract_fns = []
         for p in vc_paths:
             for d in parse_vc(p):
                 seq += 1
                 self.apply_directive(d, seq)
+        self.strip_log_macros(seq + 1)
+
+    LOG_MACROS = ("trace", "debug", "info", "warn", "error")
+
+    def strip_log_macros(self, seq):
+        """E2-f: statements that are a call of a `log` macro inside a function under contract are dropped from the
+        verified text (Verus rejects the macros' expansion; logging has no effect on any property)"""
+        from rustlex import match_close
+        for rel, fn, sel in self._contract_fns:
+            fo = self.files[rel]
+            toks = fo.fs.toks
+            k = fn.body_open_tok + 1
+            while k < fn.body_close_tok:
+                t = toks[k]
+                if t.kind == "id" and t.text in self.LOG_MACROS and toks[k + 1].text == "!" and toks[k + 2].text in ("(", "[", "{"):
+                    prev = toks[k - 1].text
+                    if prev in ("{", "}", ";"):
+                        c = match_close(toks, k + 2)
+                        end = toks[c].end
+                        if c + 1 < len(toks) and toks[c + 1].text == ";":
+                            end = toks[c + 1].end
+                        d = {"file": rel, "vc": "(engine)", "line": 0}
+                        fr = self.new_frag(d, "logmacro", [], "/* log macro call dropped from the verified text (E2-f) */", seq, sel)
+                        if not any(a <= t.start < b for a, b, _, _, _ in fo.replaces):
+                            fo.replaces.append((t.start, end, fr.text, fr, "E2-f"))
+                            fr.status = "applied"
+                            self.e2.append(f"E2-f {rel}: {sel}: `{fo.src[t.start:end][:60]}` dropped from the verified text")
+                        k = c
+                k += 1
 
     def fo(self, rel):
         if rel not in self.files:
@@ -239,6 +269,8 @@ class Overlay:
                 (self.lost if optional else self.problems).append(f"{fr.id}: {fr.status}")
                 return
             fn = fns[0]
+            if kind == "sig" and not any(x[0] == d["file"] and x[2] == sel for x in self._contract_fns):
+                self._contract_fns.append((d["file"], fn, sel))
             self.apply_fn(d, fo, fn, sel, kind, opts, pos, own, body, seq, optional)
             return
         parts = head.split()
